@@ -28,6 +28,16 @@ n_any = sum(1 for r in rows if r[6] != '—')
 summary = ('%d seeded changes were confirmed (build in all profiles, existing suite passes unedited, demonstration fails with the '
            'change and passes without it); %d are reported by the check of the property they were written to break, %d by at '
            'least one check.' % (len(rows), n_own, n_any))
+missed_own = [r for r in rows if r[5] != 'yes']
+missed_all = [r for r in rows if r[6] == '—']
+summary += ('\n\nNot reported by the check of their own property (%d): %s.  Reported by no check at all (%d): %s.  '
+            'Where a change is caught only by another property\'s check this is because the checks attribute a '
+            'report to the properties whose statement the violated rule establishes: e.g. a change written to break '
+            '"borrowing iterators yield every entry exactly once" (C09) by corrupting `len` in an insertion routine is '
+            'reported by the invariant rules (C02/C03/C05/C17), not by the iterator schemas, which are judged on an '
+            'entry state that satisfies the invariant.'
+            % (len(missed_own), ', '.join('%s (%s)' % (r[0], r[6]) for r in missed_own) or 'none',
+               len(missed_all), ', '.join(r[0] for r in missed_all) or 'none'))
 p = os.path.join(HERE, 'DESIGN.md')
 s = open(p).read()
 block = '<!-- CATCHES:BEGIN -->\n' + summary + '\n\n' + '\n'.join(out) + '\n<!-- CATCHES:END -->'
